@@ -3,7 +3,7 @@
 D=$1; shift
 T=$(mktemp -d /tmp/seedtry_XXXX)
 trap "rm -rf $T" EXIT
-rsync -a --exclude target --exclude .git /repo/ $T/
+git -C /repo archive HEAD | tar -x -C $T     # the committed tree, not the working tree (another run may have a patch applied there)
 ( cd $T && patch -p1 -s < $D/patch.diff ) || { echo "patch does not apply"; exit 3; }
 cd "$(dirname "$0")/.."
 for P in "$@"; do
